@@ -581,9 +581,16 @@ def replay(data):
     return True
 
 
+def generated_like_species(rng, d):
+    """Extant species literally called S<k>: the names generated for unnamed ancestors must avoid the leaves' names too."""
+    sl = D._leafnames(H.totuple(d["st"]))
+    mp = {s: f"S{k}" for s, k in zip(sl, rng.sample(range(len(sl) + 2), len(sl)))}
+    return dict(d, st=D._rename(H.totuple(d["st"]), mp), leafmap={l: mp[s] for l, s in d["leafmap"].items()})
+
+
 def random_named(rng, d):
     case = H.Case(d)
-    used = set()
+    used = set(D._leafnames(H.totuple(d["st"]))) | set(D._leafnames(H.totuple(d["ot"])))
 
     def pick(T):
         out = {}
@@ -622,6 +629,8 @@ def main(argv=None):
                 if with_syn else D.random_plain_input(rng, no, rng.randint(2, 3)))
         if base.get("leafsyn") and rng.random() < 0.35:
             base = D.rename_families(base, rng)
+        if rng.random() < 0.3:
+            base = generated_like_species(rng, base)
         d = random_named(rng, RC.documented_names(base))
         if d.get("rootsyn"):
             d["onames"]["0"] = d["onames"].get("0") or "root"      # the root entry of leaf_syntenies needs a user-given root name
@@ -657,6 +666,8 @@ def main(argv=None):
         algo = ["ext_spfs", "superdtl"][k % 2]
         base = SR.random_poly_input(rng, rng.randint(3, 4), rng.randint(3, 4), 2, algo == "ext_spfs", True, k % 3 == 0)
         base.pop("oprefix", None), base.pop("sprefix", None), base.pop("brlen", None)
+        if k % 3 == 1:
+            base = generated_like_species(rng, base)
         d = random_named(rng, RC.documented_names(base))
         if k % 2 == 0:
             d["onames"]["0"] = "root"
@@ -675,7 +686,7 @@ def main(argv=None):
     rep.functions = R.safe_digest(lambda: R.source_digest(CLI.read_input, CLI.call_algorithm, CLI.dump_results, CLI.reconcile, DRAW.generate_tikz, M.ReconciliationInput.label_internal,
                                     M.ReconciliationInput.from_dict, M.ReconciliationOutput.from_dict, M.SuperReconciliationOutput.from_dict, TM.get_species_mapping))
     rep.bounds = {"label_internal": "three ancestor names, each a symbolic string with len <= 2 over {O,S,0,1,x} (CrossHair, all paths)",
-                  "front end": f"{nin} seeded documented-format inputs (2-4 object leaves, 2-3 species leaves, ancestors unnamed or named O0/O1/O3/S1/x), all seven "
+                  "front end": f"{nin} seeded documented-format inputs (2-4 object leaves, 2-3 species leaves, ancestors unnamed or named O0/O1/O3/S1/x, 30% with extant species literally called S<k>), all seven "
                                "algorithms in turn, both policies; unit costs symbolic non-negative integers in the coherent region (all, or dup/hgt/sloss with "
                                "spe=0, floss=1; 20% with hgt=inf)",
                   "file level": "per input: 2 fixed cost vectors + up to 4 (thorough: 8) solver witnesses, whole reconcile command and draw in-process",
